@@ -28,7 +28,7 @@ func init() {
 }
 
 // followerLoopRoot: the function started by the claim-clear unit's goroutine that reaches Watch.
-func (m *Model) followerLoop() (root *ssa.Function, goSite *ssa.Go, unit *ssa.Function) {
+func (m *Model) followerLoop() (root *ssa.Function, goSite ssa.Instruction, unit *ssa.Function, goSpawn Spawn) {
 	var watchFn *ssa.Function
 	for _, op := range m.StoreOps() {
 		if op.Method == "Watch" {
@@ -36,42 +36,40 @@ func (m *Model) followerLoop() (root *ssa.Function, goSite *ssa.Go, unit *ssa.Fu
 		}
 	}
 	if watchFn == nil {
-		return nil, nil, nil
+		return nil, nil, nil, Spawn{}
 	}
-	for _, u := range m.DemoteUnits {
-		eachInstr(u, func(in ssa.Instruction) {
-			g, ok := in.(*ssa.Go)
-			if !ok {
-				return
-			}
-			for _, t := range m.funcValueTargets(g.Call.Value) {
-				if m.staticReach(t, false)[watchFn] {
-					// the root loop: the library function the closure calls that reaches Watch
-					root = t
-					eachInstr(t, func(x ssa.Instruction) {
-						if call, ok := x.(*ssa.Call); ok {
-							if callee := call.Call.StaticCallee(); callee != nil && m.isLib(callee) && m.staticReach(callee, false)[watchFn] {
-								root = callee
-							}
+	for _, sp := range m.Spawns() {
+		if !containsFn(m.DemoteUnits, sp.Fn) {
+			continue
+		}
+		for _, t := range sp.Targets {
+			if m.staticReach(t, false)[watchFn] {
+				// the root loop: the library function the goroutine calls that reaches Watch
+				root = t
+				eachInstr(t, func(x ssa.Instruction) {
+					if call, ok := x.(*ssa.Call); ok {
+						if callee := call.Call.StaticCallee(); callee != nil && m.isLib(callee) && m.staticReach(callee, false)[watchFn] {
+							root = callee
 						}
-					})
-					goSite, unit = g, u
-				}
+					}
+				})
+				goSite, unit = sp.At, sp.Fn
+				goSpawn = sp
 			}
-		})
+		}
 	}
 	return
 }
 
 func checkC06(c *Ctx) {
 	m := c.M
-	root, goSite, unit := m.followerLoop()
+	root, goSite, unit, goSpawn := m.followerLoop()
 	if root == nil {
 		c.viol("R1", "demotion starts the follower loop", nil, "no non-stop claim-clear unit starts a goroutine that reaches KeyValue.Watch: a demoted instance never watches for a vacancy")
 		return
 	}
 	// ---- R1 -----------------------------------------------------------------------
-	c.check(m.goTracked(goSite), "R1", "follower loop tracked in "+shortFn(unit), goSite, "wg.Add(1) before go, deferred wg.Done in the goroutine")
+	c.check(goSpawn.Tracked, "R1", "follower loop tracked in "+shortFn(unit), goSite, "wg.Add(1) before go, deferred wg.Done in the goroutine")
 	gs := m.GuardsAt(goSite)
 	var foreign []string
 	for _, l := range gs {
@@ -94,7 +92,7 @@ func checkC06(c *Ctx) {
 		}
 	}
 	if flag != "" {
-		for _, t := range m.funcValueTargets(goSite.Call.Value) {
+		for _, t := range goSpawn.Targets {
 			cleared := false
 			if len(t.Blocks) > 0 {
 				for _, in := range t.Blocks[0].Instrs {
@@ -134,15 +132,16 @@ func checkC06(c *Ctx) {
 	// every demote unit has one
 	for _, u := range m.DemoteUnits {
 		has := false
-		eachInstr(u, func(in ssa.Instruction) {
-			if g, ok := in.(*ssa.Go); ok {
-				for _, t := range m.funcValueTargets(g.Call.Value) {
-					if m.staticReach(t, false)[root] || t == root {
-						has = true
-					}
+		for _, sp := range m.Spawns() {
+			if sp.Fn != u {
+				continue
+			}
+			for _, t := range sp.Targets {
+				if m.staticReach(t, false)[root] || t == root {
+					has = true
 				}
 			}
-		})
+		}
 		c.check(has, "R1", "demotion starts the follower loop in "+shortFn(u), firstInstr(u), "%v", has)
 	}
 
